@@ -102,7 +102,7 @@ def random_endpoints(rng, idx, v6=None, sport=443):
         sip = bytes([192, 168, rng.randrange(256), 1 + rng.randrange(250)])
     cmac = bytes([2, 0, 0, rng.randrange(256), rng.randrange(256), idx & 0xFF])
     smac = bytes([2, 0, 1, rng.randrange(256), rng.randrange(256), idx & 0xFF])
-    return dict(cip=cip, sip=sip, cport=20000 + rng.randrange(40000), sport=sport,
+    return dict(cip=cip, sip=sip, cport=wire.client_port(rng, 20000, 60000), sport=sport,
                 cisn=rng.randrange(1, 2 ** 31), sisn=rng.randrange(1, 2 ** 31), cmac=cmac, smac=smac)
 
 
